@@ -453,4 +453,19 @@ def run(ctx):
         "samples": samples,
         "modelled": "cds::intrusive::FreeList (put, get, add_knowing_refcount_is_zero), TaggedFreeList (put, get), CachedFreeList<FreeList,4> and CachedFreeList<TaggedFreeList,4> (put, get)",
     })
+    # empty() / clear( disposer ): LV.Model.FreeListClear vs the real free lists (checks/C21_clear.py; theorems in the
+    # companion file Properties_C21_Clear.v)
+    try:
+        import C21_clear
+        cr = C21_clear.run_clear(ctx, report=True)
+        ccov = dict(cr["coverage"])
+        for k in ("print_assumptions", "obligation_names", "obligations", "discharged"):
+            ccov.pop(k, None)
+        ctx.coverage["empty_clear"] = ccov
+        trusted = list(trusted) + list(cr["trusted"])
+        assumptions = list(assumptions) + list(cr["assumptions"])
+    except vcheck.BuildError as e:
+        ctx.coverage["empty_clear"] = {"build_failure": str(e)[-1500:]}
+        ctx.violation("harness/C21/clear_main.cpp does not build against the working tree: the empty()/clear() part cannot be checked",
+                      {"kind": "build-failure", "harness": "clear_main", "error": str(e)[-2000:]}, no_input=True)
     return ctx.finish(trusted, assumptions)
